@@ -705,19 +705,56 @@ Proof.
   apply f64_round_int; assumption.
 Qed.
 
-Lemma classify_dec_Z z : (Z.abs z <= two53)%Z -> classify_number (dec_Z z) = Ok (JInt z).
+Lemma parse_unsigned_digits l : forall acc, all_digits l = true ->
+  parse_unsigned 10 acc l = Some (digits_val acc l).
 Proof.
-  intro Hz. unfold two53 in Hz. unfold classify_number, dec_Z.
+  induction l as [|c l IH]; intros acc H; [reflexivity|].
+  cbn [all_digits] in H. apply andb_true_iff in H as [Hc Hl].
+  cbn [parse_unsigned digits_val]. unfold digit_of. rewrite Hc.
+  apply is_digit_spec in Hc.
+  replace (c - 48 <? 10) with true by (symmetry; apply N.ltb_lt; lia).
+  apply IH. exact Hl.
+Qed.
+
+Lemma filter_id {A} (p : A -> bool) l : forallb p l = true -> filter p l = l.
+Proof.
+  induction l as [|x l IH]; intro H; [reflexivity|].
+  cbn [forallb] in H. apply andb_true_iff in H as [Hx Hl].
+  cbn [filter]. rewrite Hx, (IH Hl). reflexivity.
+Qed.
+
+Lemma all_digits_no_us l : all_digits l = true -> forallb (fun c => negb (c =? 95)) l = true.
+Proof.
+  induction l as [|c l IH]; intro H; [reflexivity|].
+  cbn [all_digits] in H. apply andb_true_iff in H as [Hc Hl]. apply is_digit_spec in Hc.
+  cbn [forallb]. rewrite (IH Hl), andb_true_r.
+  apply negb_true_iff. apply N.eqb_neq. lia.
+Qed.
+
+Lemma go_parse_int_dec_Z z : (- Z.of_N two63 <= z < Z.of_N two63)%Z -> go_parse_int 10 (dec_Z z) = Some z.
+Proof.
+  intro Hz. unfold two63 in Hz. unfold dec_Z.
+  destruct (dec_N_nonempty (Z.abs_N z)) as (d & t & He & Hd & Ht).
+  pose proof (dec_N_digits (Z.abs_N z)) as Hall.
+  pose proof (dec_N_val (Z.abs_N z)) as Hval.
   destruct (z <? 0)%Z eqn:Hneg.
-  - apply Z.ltb_lt in Hneg. rewrite split_number_neg_dec_N.
-    destruct (literal_round_int (Z.abs_N z)) as (m & e & Hr & Hi); [lia|change (2 ^ 53) with 9007199254740992; lia|].
-    rewrite Hr, Hi. replace (Z.abs_N z <=? two63) with true by (symmetry; apply N.leb_le; unfold two63; lia).
-    f_equal. f_equal. lia.
-  - apply Z.ltb_ge in Hneg. rewrite split_number_dec_N.
-    destruct (Z.eq_dec z 0) as [->|Hz0]; [reflexivity|].
-    destruct (literal_round_int (Z.abs_N z)) as (m & e & Hr & Hi); [lia|change (2 ^ 53) with 9007199254740992; lia|].
-    rewrite Hr, Hi. replace (Z.abs_N z <? two63) with true by (symmetry; apply N.ltb_lt; unfold two63; lia).
-    f_equal. f_equal. lia.
+  - apply Z.ltb_lt in Hneg. unfold go_parse_int. change (45 =? 45) with true. cbn [orb]. cbv iota. cbv zeta.
+    rewrite (parse_unsigned_digits _ 0 Hall), Hval. rewrite He.
+    replace (Z.abs_N z <=? two63) with true by (symmetry; apply N.leb_le; unfold two63; lia).
+    f_equal. lia.
+  - apply Z.ltb_ge in Hneg. rewrite He. unfold go_parse_int.
+    replace (d =? 45) with false by (symmetry; apply N.eqb_neq; lia).
+    replace (d =? 43) with false by (symmetry; apply N.eqb_neq; lia).
+    cbn [orb]. cbv zeta. cbv iota.
+    rewrite <- He. rewrite (parse_unsigned_digits _ 0 Hall), Hval.
+    replace (Z.abs_N z <? two63) with true by (symmetry; apply N.ltb_lt; unfold two63; lia).
+    f_equal. lia.
+Qed.
+
+Lemma classify_dec_Z z : (- Z.of_N two63 <= z < Z.of_N two63)%Z -> classify_number (dec_Z z) = Ok (JInt z).
+Proof.
+  intro Hz. unfold classify_number. rewrite (go_parse_int_dec_Z z Hz).
+  unfold dec_Z. destruct (z <? 0)%Z; [rewrite split_number_neg_dec_N|rewrite split_number_dec_N]; reflexivity.
 Qed.
 
 (* ------------------------------------------------------------------ *)
@@ -922,7 +959,8 @@ Proof.
     intros ind lvl fuel Hfuel Hdom rest Hrest; (destruct fuel as [|f]; [cbn in Hfuel; lia|]).
   - apply pv_null.
   - destruct b; [apply pv_true|apply pv_false].
-  - cbn [enc rt_domain] in *. apply Z.leb_le in Hdom.
+  - cbn [enc rt_domain] in *. apply andb_true_iff in Hdom as [Hd1 Hd2]. apply Z.leb_le in Hd1. apply Z.ltb_lt in Hd2.
+    assert (Hdom : (- Z.of_N two63 <= z < Z.of_N two63)%Z) by lia.
     destruct (dec_Z_shape z) as (c & t & He & Hc & Hall).
     rewrite He. cbn [app]. rewrite (pv_num f c _ Hc).
     change (c :: t ++ rest) with ((c :: t) ++ rest). rewrite <- He.
@@ -1016,32 +1054,6 @@ Qed.
 (* ------------------------------------------------------------------ *)
 (* scalar mapping                                                      *)
 (* ------------------------------------------------------------------ *)
-
-Lemma parse_unsigned_digits l : forall acc, all_digits l = true ->
-  parse_unsigned 10 acc l = Some (digits_val acc l).
-Proof.
-  induction l as [|c l IH]; intros acc H; [reflexivity|].
-  cbn [all_digits] in H. apply andb_true_iff in H as [Hc Hl].
-  cbn [parse_unsigned digits_val]. unfold digit_of. rewrite Hc.
-  apply is_digit_spec in Hc.
-  replace (c - 48 <? 10) with true by (symmetry; apply N.ltb_lt; lia).
-  apply IH. exact Hl.
-Qed.
-
-Lemma filter_id {A} (p : A -> bool) l : forallb p l = true -> filter p l = l.
-Proof.
-  induction l as [|x l IH]; intro H; [reflexivity|].
-  cbn [forallb] in H. apply andb_true_iff in H as [Hx Hl].
-  cbn [filter]. rewrite Hx, (IH Hl). reflexivity.
-Qed.
-
-Lemma all_digits_no_us l : all_digits l = true -> forallb (fun c => negb (c =? 95)) l = true.
-Proof.
-  induction l as [|c l IH]; intro H; [reflexivity|].
-  cbn [all_digits] in H. apply andb_true_iff in H as [Hc Hl]. apply is_digit_spec in Hc.
-  cbn [forallb]. rewrite (IH Hl), andb_true_r.
-  apply negb_true_iff. apply N.eqb_neq. lia.
-Qed.
 
 Lemma parse_int64_dec_Z z : (- Z.of_N two63 <= z < Z.of_N two63)%Z -> parse_int64 (dec_Z z) = Some z.
 Proof.
@@ -1192,5 +1204,7 @@ Proof.
   rewrite parse_int64_dec_Z by exact Hz. reflexivity.
 Qed.
 
-Lemma int_exact_json z ind : (Z.abs z <= two53)%Z -> parse_json (enc_top ind (JInt z)) = Ok (JInt z).
-Proof. intro Hz. apply decode_encode. cbn [rt_domain]. apply Z.leb_le. exact Hz. Qed.
+Lemma int_exact_json z ind : (- Z.of_N two63 <= z < Z.of_N two63)%Z -> parse_json (enc_top ind (JInt z)) = Ok (JInt z).
+Proof.
+  intro Hz. apply decode_encode. cbn [rt_domain]. apply andb_true_iff. split; [apply Z.leb_le|apply Z.ltb_lt]; lia.
+Qed.
